@@ -101,6 +101,12 @@ class Library:
         def mk_list(it, x=()):
             if hasattr(x, 'm_copy_list'):
                 return x.m_copy_list(it)
+            if isinstance(x, RangeV) and isinstance(x.step, int) and x.step == 1 and not all(isinstance(v, int) for v in (x.start, x.stop)) \
+                    and getattr(it, 'symbolic_range_lists', False):
+                # list(range(a, b)) with a symbolic bound: the sequence a..b-1 as a symbolic-length list (read-only use)
+                from .models import SymSeq
+                a, b = it.int_term(x.start), it.int_term(x.stop)
+                return SymSeq([], z3.If(b > a, b - a, 0), lambda i, a=a: Sym(a + i), 'list')
             return VList(list(it.iterate(x)))
         B['list'] = TypeNative('list', mk_list, lambda v: isinstance(v, VList))
 
